@@ -82,7 +82,10 @@ func reachableFuncs(p *core.Prog, roots ...*ssa.Function) []*ssa.Function {
 		seen[f] = true
 		order = append(order, f)
 		for _, a := range f.AnonFuncs {
-			visit(a)
+			// (a literal all of whose calls were inlined is seen through its copies)
+			if !p.DeadLiteral(a) {
+				visit(a)
+			}
 		}
 		for _, b := range f.Blocks {
 			for _, in := range b.Instrs {
